@@ -187,7 +187,7 @@ def real_parser(case=None):
 
 
 REAL_NAMES = ['BSC_read', 'BSC_write', 'BSC_getpid', 'MACH_SCHED', 'TRACE_DATA_EXEC', 'TRACE_STRING_PROC_EXIT',
-              'KTrap_Debug']
+              'TRACE_DATA_THREAD_TERMINATE', 'KTrap_Debug']
 UNKNOWN_REAL_ID = 0x0badc0d0
 
 
